@@ -1,6 +1,7 @@
 package main
 
 import (
+	"go/ast"
 	"strings"
 )
 
@@ -116,6 +117,49 @@ func extractLru() {
 		}
 	}
 	l.def("evictCallers", "List String", lstrs(evictCallers), "methods that call evict()")
+	// Range is the one method that reads the index without the mutex: that is sound only as long as the
+	// index is the sync.Map wrapper (safe for concurrent use) and Range touches nothing else.
+	indexType := ""
+	if f != nil {
+		ast.Inspect(f, func(n ast.Node) bool {
+			ts, ok := n.(*ast.TypeSpec)
+			if !ok || ts.Name.Name != "Cache" {
+				return true
+			}
+			if st, ok := ts.Type.(*ast.StructType); ok {
+				for _, fld := range st.Fields.List {
+					for _, nm := range fld.Names {
+						if nm.Name == "cache" {
+							indexType = src(fld.Type)
+						}
+					}
+				}
+			}
+			return false
+		})
+	}
+	rangeOnlyIndex, rangeLocked := false, false
+	if fd := funcDecl(f, "Cache", "Range"); fd != nil {
+		rangeOnlyIndex = true
+		for _, c := range calls(fd.Body) {
+			if strings.HasPrefix(c.name, "c.") && c.name != "c.cache.Range" {
+				rangeOnlyIndex = false
+			}
+			if c.name == "c.mtx.RLock" || c.name == "c.mtx.Lock" {
+				rangeLocked = true
+			}
+		}
+		if strings.Contains(src(fd.Body), "range c.cache") || strings.Contains(src(fd.Body), "c.ll") || strings.Contains(src(fd.Body), "c.size") {
+			rangeOnlyIndex = false
+		}
+	} else {
+		fail("cache/lru/lru.go: method Cache.Range")
+	}
+	indexConcurrent := strings.HasPrefix(indexType, "syncMap[")
+	l.def("indexIsSyncMap", "Bool", lbool(indexConcurrent), "the key index is the sync.Map wrapper (type "+indexType+")")
+	l.def("rangeSafe", "Bool", lbool(rangeLocked || (indexConcurrent && rangeOnlyIndex)),
+		"Range holds the mutex, or reads nothing but an index that is safe for concurrent use")
+	shape["indexType"], shape["rangeSafe"] = indexType, rangeLocked || (indexConcurrent && rangeOnlyIndex)
 	shape["evictVictim"], shape["putInsert"], shape["getTouch"], shape["evictCallers"] = victim, insert, touch, evictCallers
 	facts["lru"] = shape
 }
